@@ -414,6 +414,10 @@ impl Gen {
         if self.deploy_left > 0 {
             return self.deploy_step(c);
         }
+        // now and then the owner re-sends a configuration it already has
+        if self.rng.chance(1, 50) {
+            return self.resend_op(c);
+        }
         // a paged read now and then: from nowhere, from 0, from a stored id, from beyond the end,
         // with the default, a zero, a small, the maximal and an over-the-maximum page size
         if self.rng.chance(1, 40) {
@@ -663,6 +667,58 @@ impl Gen {
             Some(self.rng.pick(v))
         } else {
             None
+        }
+    }
+
+    /// the owner re-sends part of a contract's current configuration (same values): nothing may change
+    pub fn resend_op(&mut self, c: &Chain) -> Op {
+        let r = &mut self.rng;
+        let mut keep = |r: &mut Rng| r.chance(2, 3);
+        match r.below(5) {
+            0 | 1 => {
+                let cfg: Option<basset::reward::ConfigResponse> = c.q(REWARD, &basset::reward::QueryMsg::Config {}).ok();
+                match cfg {
+                    Some(k) => {
+                        let h = if keep(r) { Some(id_of(&k.hub_contract)) } else { None };
+                        let d = if keep(r) { Some(denom_id(&k.reward_denom)) } else { None };
+                        let w = if keep(r) { Some(id_of(&k.swap_contract)) } else { None };
+                        tx(id_of(&k.owner), REWARD, Call::Reward(RewMsg::UConfig(h, d, w)))
+                    }
+                    None => tx(OWNER, REWARD, Call::Reward(RewMsg::UConfig(None, None, None))),
+                }
+            }
+            2 => {
+                let cfg: Option<basset::dispatcher::ConfigResponse> = c.q(DISP, &basset_sei_rewards_dispatcher::msg::QueryMsg::Config {}).ok();
+                match cfg {
+                    Some(k) => {
+                        let h = if keep(r) { Some(id_of(&k.hub_contract)) } else { None };
+                        let w = if keep(r) { Some(id_of(&k.bsei_reward_contract)) } else { None };
+                        let sd = if keep(r) { Some(denom_id(&k.stsei_reward_denom)) } else { None };
+                        let bd = if keep(r) { Some(denom_id(&k.bsei_reward_denom)) } else { None };
+                        let ka = if keep(r) { Some(id_of(&k.krp_keeper_address)) } else { None };
+                        let kr = if keep(r) { Some(k.krp_keeper_rate.atomics().u128()) } else { None };
+                        tx(id_of(&k.owner), DISP, Call::Disp(DispMsg::UConfig(h, w, sd, bd, ka, kr)))
+                    }
+                    None => tx(OWNER, DISP, Call::Disp(DispMsg::UConfig(None, None, None, None, None, None))),
+                }
+            }
+            3 => {
+                let p: Option<basset::hub::Parameters> = c.q(HUB, &basset::hub::QueryMsg::Parameters {}).ok();
+                let owner = c.q::<basset::hub::ConfigResponse, _>(HUB, &basset::hub::QueryMsg::Config {}).ok().map(|k| id_of(&k.owner)).unwrap_or(OWNER);
+                match p {
+                    Some(k) => {
+                        let e = if keep(r) { Some(k.epoch_period) } else { None };
+                        let u = if keep(r) { Some(k.unbonding_period) } else { None };
+                        let f = if keep(r) { Some(k.peg_recovery_fee.atomics().u128()) } else { None };
+                        let t = if keep(r) { Some(k.er_threshold.atomics().u128()) } else { None };
+                        let rd = if keep(r) { Some(denom_id(&k.reward_denom)) } else { None };
+                        // an omitted pause flag clears the pause (C20): always re-send it
+                        tx(owner, HUB, Call::Hub(HubMsg::UParams(e, u, f, t, Some(k.paused.unwrap_or(false)), rd)))
+                    }
+                    None => tx(owner, HUB, Call::Hub(HubMsg::UParams(None, None, None, None, Some(false), None))),
+                }
+            }
+            _ => tx(OWNER, REG, Call::Reg(RegMsg::UConfig(Some(HUB)))),
         }
     }
 
